@@ -34,12 +34,18 @@ Strings == IF IsEd(G) THEN EdStrings ELSE IntStrings
 
 (* canon, sub: the constant sets Canon and Subgroup(G), carried in the state  *)
 (* so that they are computed once and not once per string                    *)
-VARIABLES b, canon, sub
-Init == canon = Canon /\ sub = Subgroup(G) /\ b \in Strings
-Next == UNCHANGED <<b, canon, sub>>
-Spec == Init /\ [][Next]_<<b, canon, sub>>
+(* Two-stage fan-out so that all TLC workers share the strings (TLC evaluates  *)
+(* initial states on one thread): stage 1 picks a class, stage 2 a string.    *)
+NPART == 32
+VARIABLES b, canon, sub, part
+NoString == <<0 - 1>>
+ClassOf(s) == IF s = <<>> THEN 0 ELSE (s[1] + (IF Len(s) > 1 THEN 7 * s[2] ELSE 0)) % NPART
+Init == canon = Canon /\ sub = Subgroup(G) /\ b = NoString /\ part = 0
+Next == \/ part = 0 /\ part' \in 1..NPART /\ UNCHANGED <<b, canon, sub>>
+        \/ part > 0 /\ b = NoString /\ b' \in {s \in Strings : ClassOf(s) = part - 1} /\ UNCHANGED <<canon, sub, part>>
+Spec == Init /\ [][Next]_<<b, canon, sub, part>>
 
-StrictDecode ==
+StrictDecode == (b # NoString) =>
   LET r == GDec(G, b)
   IN /\ r.ok <=> b \in canon
      /\ r.ok => (Len(b) = GESize(G) /\ GEnc(G, r.e) = b /\ r.e \in sub /\ r.e \notin Refused)
